@@ -85,8 +85,15 @@ def generate(rng, tier):
             prio_of[tgt] = actions[-1]["prio"]
         scripts.append({"actor": actor, "t": t, "actions": actions})
     multi = [rng.choice([1, 1, 2, 3, 5]) for _ in range(steps)] if rng.random() < 0.3 else []      # requests for several timesteps
-    return dict({"systems": systems, "scripts": scripts, "steps": steps, "strsub_ids": rng.random() < 0.12, "multi": multi},
-                **gen_flavour(rng))
+    out = dict({"systems": systems, "scripts": scripts, "steps": steps, "strsub_ids": rng.random() < 0.12, "multi": multi},
+               **gen_flavour(rng))
+    if rng.random() < 0.15:
+        # coupling systems: an instance registered here is ALSO registered with (or taken out of) a second live model, from
+        # inside a timestep of this one - the other model's system set is not this model's
+        for sc_ in scripts:
+            for _ in range(rng.choice([1, 1, 2])):
+                sc_["actions"].insert(rng.randint(0, len(sc_["actions"])), {"op": "elsewhere", "target": rng.choice([s["id"] for s in systems])})
+    return out
 
 
 class StepEnd(System):
@@ -118,6 +125,7 @@ class World:
         self.gen = 0
         self.spec_of = {}
         self.other = None
+        self.side = None
         self.rec_cls = rec_class(sc, ctx)
         self.strsub = bool(sc.get("strsub_ids"))
         if self.strsub:
@@ -283,6 +291,23 @@ class World:
             rel = "self" if tgt == rec.id else ("new" if tpos is None else ("before" if tpos < apos else "after"))
             self._effective(apos, behind, "reprio", rel)
             ctx.probe("reprioritised_same_object")
+        elif op == "elsewhere":
+            tgt = act["target"]
+            if not ref.has(tgt):
+                return
+            o = self.objs[tgt]
+            if self.side is None:
+                self.side = Model(seed=11)
+                for j in range(4):         # (the second model has handed out registrations of its own)
+                    self.side.systems.add_system(Rec({"id": f"side{j}", "prio": 1}, self.side, self))
+            there = self.side.systems[tgt] is o
+            if not there and self.side.systems[tgt] is not None:
+                return          # (an earlier instance under this id is still registered over there)
+            st, v = ctx.call(self.side.systems.remove_system, tgt) if there else ctx.call(self.side.systems.add_system, o)
+            if st != "ok":
+                ctx.fail("elsewhere:unexpected-exception", f"{type(v).__name__}: {v}")
+            ctx.event("elsewhere", tgt, "removed" if there else "added")
+            ctx.probe("instance_taken_out_of_another_model_mid_timestep" if there else "instance_also_registered_with_another_model")
         elif op == "step_other":
             # nested stepping of a second, independent model (with its own systems and its own removals)
             if self.other is None:
